@@ -136,6 +136,13 @@ class Machine:
 			for i in range(len(vals) - 1):
 				conj.append(to_bool(self.compare(items[2 * i + 1], vals[i], vals[i + 1])))
 			return ('bool', z3.And(*conj) if len(conj) > 1 else conj[0])
+		if k == 'rangecond':
+			# Python's range(start, stop, step): i < stop for a positive step, i > stop for a negative one; step == 0 raises ValueError
+			var = to_int(self.expr(e[1], env, guard))
+			stop = to_int(self.expr(e[2], env, guard))
+			step = to_int(self.expr(e[3], env, guard))
+			self.premise(step != bv(0), guard)
+			return ('bool', z3.If(step > bv(0), var < stop, var > stop))
 		if k in ('and', 'or'):
 			# operands are bool typed by construction of the generator; short circuit matters for premises only
 			acc = None
